@@ -7,7 +7,7 @@ RULE = ('seeded histories (8-30 operations) as in C04 plus task.force(delete_dat
         'the real code (top-level value requests) and fed to the model; compared per operation: values, run-log delta, forced / '
         'in-memory / stored sets; oracle: forced set = downstream closure (independent search over declared inputs), delete_data '
         'removes exactly those results, recompute runs every forced task exactly once, a forced task runs exactly once on its next '
-        'request, unforced available tasks never run; distinct = distinct (pipeline, op list)')
+        'request, unforced available tasks never run, every run is stamped and a result later read from the store carries the stamp of the latest completed run for that location (recomputation replaces the stored result); distinct = distinct (pipeline, op list)')
 ASSUMPTIONS = ['networkx descendants = reachability (the model uses its own reachability, the oracle an independent search)']
 TRUSTED = ['chain structure extracted from the implementation']
 
@@ -16,10 +16,15 @@ def oracle(ctx, case, hist, maps, spec):
     objs = {id(t): t for t in maps['objs']}
     prev = {'mem': [], 'stored': [], 'forced': []}
     pending_forced = set()      # objects forced and not yet re-run
+    latest = {}                 # location -> run number of the latest completed run of a persisting task stored there
     for r in hist['rec']:
         op = r['op']
         st = r['state']
         runs = r['runs']
+        for x, stamp in r.get('done', []):
+            o = objs.get(x)
+            if o is not None and persisting(o):
+                latest[(str(o.path), o.name_for_persistence)] = stamp
         if r.get('skipped') or op['op'] in ('build', 'restart'):
             prev = st or prev
             continue
@@ -79,13 +84,20 @@ def oracle(ctx, case, hist, maps, spec):
                     ctx.fail('a forced task did not run exactly once on its next request', case,
                              {'op': op, 'task': t.fullname, 'times': runs.count(id(t))})
             pending_forced -= set(runs) if not op['failing'] else set()
+            # a result read back from the store is the one written by the latest completed run for that location:
+            # a forced recomputation REPLACES the stored result (runs are stamped, so results of different runs differ)
+            lk = (str(t.path), t.name_for_persistence)
+            if (persisting(t) and 'value' in r and id(t) not in prev['mem'] and id(t) not in runs and lk in latest
+                    and isinstance(r['value'], dict) and r['value'].get('t') != '__EMPTY__' and r['value'].get('s') != latest[lk]):
+                ctx.fail('the store holds the result of an older run: a recomputation did not replace the stored result', case,
+                         {'op': op, 'task': t.fullname, 'stored_run': r['value'].get('s'), 'latest_run': latest[lk]})
         elif op['op'] == 'inspect' and runs:
             ctx.fail('inspection ran tasks', case, {'op': op})
         prev = st
 
 
 def run(ctx):
-    machine.run_batch(ctx, ctx.n(60, 800), allow={'force', 'restart'}, label='force', oracle=oracle)
+    machine.run_batch(ctx, ctx.n(60, 800), allow={'force', 'restart'}, label='force', oracle=oracle, stamp=True)
 
 
 def search(ctx, divergences):
